@@ -74,10 +74,17 @@ def atoms(shape):
 def _layouts(mode):
     from pycaption.geometry import Layout, Point, Size, UnitEnum
 
+    from pycaption.geometry import Padding
+
     P = UnitEnum.PERCENT
-    la = Layout(origin=Point(Size(10, P), Size(10, P)))
+    # the shared layout has paddings that differ on every side (a layout equals itself whatever its components are)
+    la = Layout(origin=Point(Size(10, P), Size(10, P)), padding=Padding(before=Size(1, P), after=Size(2, P), start=Size(5, P), end=Size(10, P)))
     lb = Layout(origin=Point(Size(20, P), Size(70, P)))
-    return [la, la] if mode == "same" else [la, lb]
+    if mode == "same":
+        # equal layouts, not the identical object: what a reader returns for two spans in one region
+        la2 = Layout(origin=Point(Size(10, P), Size(10, P)), padding=Padding(before=Size(1, P), after=Size(2, P), start=Size(5, P), end=Size(10, P)))
+        return [la, la2]
+    return [la, lb]
 
 
 def build(shape, spans, lay=None):
